@@ -8,11 +8,20 @@ theorems about the executable model of `dialect::OrthoPlanariser` (only theorems
   Tie    : Driver/C19Planarise.lean — every run the real `OrthoPlanariser::planarise` is run on the `planx-*`
            classes of harness/c19_planarise.h and bend nodes, overlap-free graph and planar graph must equal
            the model's (new nodes renamed in creation order), exactly.
-  Proofs : Lemmas/PlanariseSort.lean (std::sort / partition), Lemmas/PlanariseSweep.lean (the sweep).
+  Proofs : Lemmas/PlanariseSort.lean (std::sort, partition), PlanariseSweep.lean (tracking invariant, one event role by
+           role, one x-part, the whole sweep), PlanariseGood.lean (decidable hypothesis), PlanariseConn(Sweep).lean (cuts preserve
+           connections, tail tracking), PlanariseNoCross(Sweep).lean (piece geometry, no crossing node inside a piece).
+
+What is proved about the code as modelled, for ALL finite lists of axis-parallel segments with the stated hypothesis
+`Good` (sections 3–5): the sweep reports exactly the crossings its condition describes; every input segment stays
+connected through crossing nodes only; no two result edges cross.  These are statements about `computeCrossings`, i.e.
+`removeEdgeCrossings` run on the overlap-free graph; `removeEdgeOverlaps` (bend nodes, node groups) is modelled and tied
+exactly but has no theorem beyond `planarise_preserves_nodes` — hence the `_partial` suffixes.
 -/
 import AdaptaVerif.Lemmas.PlanariseSweep
 import AdaptaVerif.Lemmas.PlanariseGood
 import AdaptaVerif.Lemmas.PlanariseConnSweep
+import AdaptaVerif.Lemmas.PlanariseNoCrossSweep
 namespace AdaptaVerif.Props.C19Planarise
 open AdaptaVerif.Model.Planarise AdaptaVerif.Lemmas.Planarise AdaptaVerif.Check.Planarise
 
@@ -193,7 +202,36 @@ theorem short_segment_disconnects :
     chainB [0, 1, 2, 3, 4, 5] (planarise jogInput2).edges 0 1 = false := by
   decide +kernel
 
-/-! ### (5) closed witnesses -/
+
+/-! ### (5) no two edges of the result cross -/
+
+/-- **No crossing, crossing-removal stage, all segment lists**: after `computeCrossings` no horizontal piece `p` and
+vertical piece `q` of the final segment list (one planar-graph edge each) cross transversally
+(`PiecesCross p q`: the line of `q` strictly between the ends of `p` and the line of `p` strictly between the ends
+of `q`).  Proof: every final piece lies inside one original segment (`piece_within`), a crossing of two pieces would
+satisfy the sweep condition, so by completeness a crossing node sits there — but no crossing node lies strictly
+inside a piece (invariant `Pc.ni`, kept by every cut).
+`_partial` with respect to the brief's `planarise_no_crossing` only in that the overlap-removal stage is not composed
+in: the statement is about `removeEdgeCrossings` on ANY segment list satisfying `Good`. -/
+theorem planarise_no_crossing_partial (S : List Seg) (nextId : Nat) (hG : Good S) :
+    ∀ p ∈ (computeCrossings S nextId).segs, ∀ q ∈ (computeCrossings S nextId).segs, ¬ PiecesCross p q :=
+  no_pieces_cross hG nextId
+
+/-- every edge of the result is a sub-segment of one input segment (so parallel pieces can only touch or overlap
+where the input segments did: never, by `Good`, except at shared ends) -/
+theorem planarise_pieces_within (S : List Seg) (nextId : Nat) (hG : Good S) :
+    ∀ t ∈ (computeCrossings S nextId).segs, ∃ s ∈ S,
+      (s.ori = .H ∧ t.on.p.y = s.cc ∧ t.cn.p.y = s.cc ∧ s.lo ≤ t.on.p.x ∧ t.on.p.x ≤ s.hi ∧ s.lo ≤ t.cn.p.x ∧ t.cn.p.x ≤ s.hi) ∨
+      (s.ori = .V ∧ t.on.p.x = s.cc ∧ t.cn.p.x = s.cc ∧ s.lo ≤ t.on.p.y ∧ t.on.p.y ≤ s.hi ∧ s.lo ≤ t.cn.p.y ∧ t.cn.p.y ≤ s.hi) := by
+  intro t ht
+  obtain ⟨j, sj, hsj, h⟩ := piece_within hG nextId t ht
+  exact ⟨sj, List.mem_of_getElem? hsj, h⟩
+
+/-- non-vacuity of `PiecesCross`: the two input segments of the grid do cross before the sweep -/
+example : PiecesCross (mkSeg ⟨0, ⟨0, 0⟩⟩ ⟨1, ⟨30, 0⟩⟩) (mkSeg ⟨6, ⟨10, -5⟩⟩ ⟨7, ⟨10, 25⟩⟩) := by
+  unfold PiecesCross; decide +kernel
+
+/-! ### (6) closed witnesses -/
 
 /-- edge A→B routed (0,0) (20,0) (20,d) (60,d) (60,40) — a vertical jog of length `d` at x = 20 — and the
 straight horizontal edge C→D at y = 20 (replay: harness `--mode shortseg` for d = 1/2) -/
